@@ -376,7 +376,7 @@ class RunResult:
 
 
 def run_sim(fn, fs, chooser, step_cap=5000, mem_total=64 << 30, cpu_count=4, queue_cap=None, drain=True,
-            on_return=None):
+            on_return=None, preempt=None):
     """Runs fn() as the main simulated thread.  status: ok | raised | deadlock | stepcap."""
     r = RunResult()
     r.value = None
@@ -386,6 +386,10 @@ def run_sim(fn, fs, chooser, step_cap=5000, mem_total=64 << 30, cpu_count=4, que
     with SimEnv(fs, mem_total=mem_total, cpu_count=cpu_count):
         sched = core.begin(chooser, step_cap)
         r.sched = sched
+        if preempt is not None:
+            # preempt = (probability per library source line, key of the PRNG streams)
+            sched.enable_preemption(preempt[0], preempt[1], os.path.join(REPO, 'seismic_zfp') + os.sep)
+            sys.settrace(sched.tracer)
         try:
             try:
                 r.value = fn()
@@ -404,6 +408,8 @@ def run_sim(fn, fs, chooser, step_cap=5000, mem_total=64 << 30, cpu_count=4, que
                 on_return(r)
             r.drain_steps = sched.drain() if drain else 0
         finally:
+            if preempt is not None:
+                sys.settrace(None)
             core.SimQueue.cap_override = None
             try:
                 core.end()
